@@ -173,7 +173,13 @@ static int nx_leaf_bytes(char *buf, int max)
 			strcat(buf, ".\n");
 		strcat(buf, "q!\n");
 	} else {
-		strcpy(buf, ESC ESC ESC ":\x05q!\n");
+		/* in vi mode a/i/c inside :g read one text block per execution from the terminal; each ESC
+		 * ends one of them (and is a no-op in normal mode), so that the quit command is reached */
+		int i;
+		buf[0] = '\0';
+		for (i = 0; i < 40; i++)
+			strcat(buf, ESC);
+		strcat(buf, ":\x05q!\n");
 	}
 	return strlen(buf);
 }
@@ -260,7 +266,7 @@ static void run_stream(const char **toks, int n, const char *what)
 	pid = fork();
 	if (!pid) {
 		char *argv_vi[] = {"vi", "-v", "f", NULL};
-		char leaf[64];
+		char leaf[256];
 		int efd = __real_open(nx_errpath, O_WRONLY | O_CREAT | O_TRUNC, 0600);
 		if (efd >= 0) {
 			dup2(efd, 2);
